@@ -132,6 +132,15 @@ fn sigalg_debug(t: &mut Tape, obs: &mut Obs) -> R {
     let v = t.u16();
     let text = guard("Debug for TlsExtension", || format!("{:?}", TlsExtension::SignatureAlgorithms(vec![v])))?;
     let sig = format!("C17:sigalg-debug:value={:#06x}", v);
+    // an entry is printed the same wherever it stands and whatever stands next to it (named schemes, pairs printed as HashSign(..),
+    // unregistered values): the text of [v] must reappear at v's position in longer lists
+    let elems = |text: &str| -> Vec<String> { text.split('[').nth(1).unwrap_or("").trim_end_matches(|c| c == ')' || c == ']').split("\", \"").map(|e| e.trim_matches('"').to_string()).collect() };
+    let alone = elems(&text);
+    for (ctx, pos) in [(vec![0x0402u16, v], 1usize), (vec![v, 0x0402], 0), (vec![0x0804, v, 0x0402], 1), (vec![0xeeee, 0x0402, 0x0403, v], 3), (vec![0x0403, 0x0403, v, v], 3)] {
+        let t2 = guard("Debug for TlsExtension", || format!("{:?}", TlsExtension::SignatureAlgorithms(ctx.clone())))?;
+        let e2 = elems(&t2);
+        ensure!(alone.len() == 1 && e2.len() == ctx.len() && e2[pos] == alone[0], format!("C17:sigalg-debug:context:value={:#06x}", v), "Debug of signature_algorithms {:04x?} is {:?}: entry {} ({:#06x}) is printed {:?} there and {:?} when it is alone", ctx, t2, pos, v, e2.get(pos), alone.first());
+    }
     if let Some(name) = iana::SIGNATURE_SCHEME.name_of(v as u32) {
         obs.nontrivial(v as u64);
         obs.class("named-scheme");
